@@ -665,7 +665,7 @@ impl<'a> Gen<'a> {
         let immut = self.lookup_locals(&|l| !l.mutable);
         let gone: Vec<String> = self.popped.iter().filter(|n| !self.visible(n)).cloned().collect();
         for _ in 0..40 {
-            match self.r.below(16) {
+            match self.r.below(18) {
                 0 => {
                     let (p, l, f) = self.embed_expr("zundefined");
                     return self.emit_fault(indent, "undefined-variable", "UndefinedVariable", f, &p, &l, Some("zundefined"));
@@ -781,6 +781,20 @@ impl<'a> Gen<'a> {
                         _ => (format!("print {{ zq for zq in {} }}", name), "set-comprehension", "{"),
                     };
                     return self.emit_fault(indent, "iterate-non-list", "ExpectedListValue", form, &prefix, &line, Some(tok));
+                }
+                16 => {
+                    // the nearest declaration decides: an immutable variable that shadows a mutable one of an enclosing block
+                    let (prefix, line, form) = match self.r.below(3) {
+                        0 => ("var zsh2 = 0\nif #true {\n  let zsh2 = 1", "  set zsh2 = 2\n}", "set"),
+                        1 => ("var zsh2 = 0\nfor zsh2 in [1, 2] {", "  set zsh2 = 3\n}", "set"),
+                        _ => ("var zsh2 = 0\nif #true {\n  let zsh2 = 1\n  scan \"ab\" {\n    \"a\" {", "      set zsh2 = 2\n    }\n  }\n}", "set"),
+                    };
+                    return self.emit_fault(indent, "assign-immutable-shadowing-mutable", "Variable:CannotAssignImmutableVariable", form, prefix, line, Some("zsh2"));
+                }
+                17 => {
+                    // a scan arm with an empty block is an arm like any other: it must be kept (C10) and its regex checked
+                    let line = "scan \"abc\" {\n  \"b\" { }\n  \"c*\" { }\n  \"a\" { node zn3 }\n}";
+                    return self.emit_fault(indent, "nullable-regex-in-empty-arm", "NullableRegex", "scan-arm", "", line, None);
                 }
                 14 | 15 => {
                     let re = *self.r.pick(&["a*", "", "(x)?", "b|", "[0-9]*", "^", "(a|b)*c?"]);
@@ -1119,6 +1133,10 @@ pub fn gen_program(r: &mut Rng, pool: &[Pattern], opts: &Opts) -> Program {
     if g.r.chance(1, 3) || nested_definers {
         g.feature("inherit");
         text.push_str("inherit .val\n");
+        if nested_definers {
+            // a second inherited name, defined by the same ancestors with other values: lookups are per (node, name)
+            text.push_str("inherit .kind2\n");
+        }
     }
     // shorthands (bodies use only their parameter, literals and calls: shorthand bodies are unchecked)
     if g.r.chance(1, 3) {
@@ -1137,6 +1155,14 @@ pub fn gen_program(r: &mut Rng, pool: &[Pattern], opts: &Opts) -> Program {
             text.push_str("attribute sh2 = q => sh1 = q, shq\n");
             g.shorthands.push("sh2".to_string());
         }
+    }
+    // a shorthand whose body mentions a name that is NOT its parameter: shorthand bodies see no locals of the place
+    // where the shorthand is used, so the name is undefined there even when the using stanza has a local of that name
+    let caller_local = g.r.chance(1, 6);
+    if caller_local {
+        g.feature("shorthand-free-name");
+        text.push_str("attribute shfree = fp => shf = fp, shcaller = zcaller\n");
+        g.shorthands.push("shfree".to_string());
     }
     let mut header_fault: Option<StaticFault> = None;
     if header_rule == 0 && !g.globals.is_empty() {
@@ -1182,8 +1208,10 @@ pub fn gen_program(r: &mut Rng, pool: &[Pattern], opts: &Opts) -> Program {
         stanzas.push("(call function: (_) @f) @c {\n  let @c.link = @f\n}\n".to_string());
         if nested_definers {
             g.feature("nested-definers");
-            stanzas.push("[(function_definition) (class_definition) (if_statement) (for_statement) (block) (call) (argument_list) (list) (assignment)] @nest {\n  let @nest.val = (node-type @nest)\n}\n".to_string());
-            stanzas.push("[(integer) (string) (pass_statement) (true) (false) (none)] @leaf {\n  node lf\n  attr (lf) inherited = @leaf.val, at = (start-row @leaf), col = (start-column @leaf)\n}\n".to_string());
+            stanzas.push("[(function_definition) (class_definition) (if_statement) (for_statement) (block) (call) (argument_list) (list) (assignment)] @nest {\n  let @nest.val = (node-type @nest)\n  let @nest.kind2 = (start-row @nest)\n}\n".to_string());
+            stanzas.push("[(integer) (string) (pass_statement) (true) (false) (none)] @leaf {\n  node lf\n  attr (lf) inherited = @leaf.val, second = @leaf.kind2, at = (start-row @leaf), col = (start-column @leaf)\n}\n".to_string());
+            // the same two names read in the other order by another stanza
+            stanzas.push("[(integer) (string) (pass_statement)] @leaf2 {\n  node lf2\n  attr (lf2) second = @leaf2.kind2, inherited = @leaf2.val\n}\n".to_string());
         }
     }
     let n_stanzas = g.r.range(1, opts.max_stanzas.max(1));
@@ -1200,6 +1228,10 @@ pub fn gen_program(r: &mut Rng, pool: &[Pattern], opts: &Opts) -> Program {
             g.sf_countdown = Some(g.r.below(7));
         }
         let mut body = String::new();
+        if caller_local && g.r.chance(2, 3) {
+            body.push_str("  let zcaller = \"caller-local\"\n");
+            g.scopes.last_mut().unwrap().push(Local { name: "zcaller".to_string(), ty: Ty::Str, mutable: false, local: true, list_q: false, opt_q: false });
+        }
         let n = g.r.range(1, 4);
         for _ in 0..n {
             body.push_str(&g.stmt(3, 1));
